@@ -367,6 +367,11 @@ def introspected_calls(doc, rng, big):
     paras = body.get_paragraphs()
     for p in paras[:1] + paras[-1:]:
         owners.append(("Paragraph", p))
+    # paragraphs and headings holding a note: their own text export numbers the notes
+    with_note = [p for p in paras + body.get_headers() if p.get_element("descendant::text:note") is not None][:3]
+    for p in with_note:
+        if all(p is not o for _n, o in owners):
+            owners.append((type(p).__name__, p))
     for getter in ("get_headers", "get_lists", "get_frames", "get_notes", "get_tocs", "get_spans", "get_links", "get_sections", "get_draw_pages", "get_annotations"):
         try:
             els = getattr(body, getter)()
@@ -444,6 +449,7 @@ def gen_sources(ctx):
         if spec["type"] == "text":
             spec["table"] = True
             spec["tracked"] = i % 4 == 1
+            spec["bare_note"] = i % 4 == 3
         srcs.append({"kind": "generated", "spec": spec})
     return srcs
 
